@@ -18,8 +18,11 @@ def prog_term(c):
     L = c["l"]
     ops = []
     for i in range(0, len(L), 2):
-        ops.append(("OpSubscribe %d" if L[i] == 0 else "OpForget %d") % L[i + 1])
-    scr = ";".join("POk" for ch in c["s"]["script"] if ch in "oO")
+        if L[i] == 3:
+            ops.append("OpConsume")
+        else:
+            ops.append(("OpSubscribe %d" if L[i] == 0 else "OpForget %d") % L[i + 1])
+    scr = ";".join("POk" if ch in "oO" else "PData 1" for ch in c["s"]["script"] if ch in "oOdD")
     return "[%s]" % ";".join(ops), "[%s]" % scr
 
 
@@ -79,8 +82,8 @@ def run(ctx):
         seen.add(key)
         c = dict(o["case"])
         c.pop("url", None)
-        if ctx.finding(key, what, {"case": c, "observed": {k: o.get(k) for k in ("done", "outstanding", "subs", "subs_blocked", "pubs", "err", "panic")},
-                                   "how": "work/bin/clientharness c27 -replay <this file>: ops (kind,id) pairs in case.l (0 Subscribe, 1 ForgetSubscription, 2 Cancel), first case.p.seq ops sequential, the rest concurrent; publish answers per case.s.script (O = held until the calls are issued)"}):
+        if ctx.finding(key, what, {"case": c, "observed": {k: o.get(k) for k in ("done", "api_done", "outstanding", "subs", "subs_blocked", "pubs", "err", "panic")},
+                                   "how": "work/bin/clientharness c27 -replay <this file>: ops (kind,id) pairs in case.l (0 Subscribe, 1 ForgetSubscription, 2 Cancel, 3 consumer: SubscriptionIDs() then receive from the unbuffered Notifs channel), first case.p.seq ops sequential, the rest concurrent; publish answers per case.s.script (O/o keep-alive, D/d data notification for subscription 1; upper case = held until the calls are issued)"}):
             new += 1
 
     usable, stress = [], []
@@ -95,10 +98,12 @@ def run(ctx):
                     o["case"]["p"].get("nsubs"), o["case"]["p"].get("writers"), o["done"], o.get("subs_blocked")), o)
             continue
         usable.append(o)
-        shape = "".join("SFC"[k] for k in o["case"]["l"][0::2])
-        if not all(o["done"]) or o.get("subs_blocked"):
-            report("blocked/" + shape, "an API call never returned or subMux can no longer be taken: done=%s subs_blocked=%s" % (o["done"], o.get("subs_blocked")), o)
-        elif o["subs"] and not o["outstanding"]:
+        shape = "".join("SFCR"[k] for k in o["case"]["l"][0::2])
+        api_done = o.get("api_done") or o["done"]
+        has_data = any(ch in "dD" for ch in o["case"]["s"]["script"])
+        if not all(api_done) or o.get("subs_blocked"):
+            report("blocked/" + shape, "an API call never returned or subMux can no longer be taken: api calls returned=%s subs_blocked=%s" % (api_done, o.get("subs_blocked")), o)
+        elif o["subs"] and not o["outstanding"] and not has_data:
             report("lost-resume", "all calls returned, subscriptions %s are registered, but the publish loop is parked (no publish request outstanding)" % o["subs"], o)
 
     corr_ok, mism = True, []
@@ -122,14 +127,14 @@ def run(ctx):
         corr_ok = False
     if mism and new == 0:
         for o in mism[:3]:
-            report("mismatch/" + "".join("SFC"[k] for k in o["case"]["l"][0::2]),
+            report("mismatch/" + "".join("SFCR"[k] for k in o["case"]["l"][0::2]),
                    "the implementation ended in a state that is not a terminal state of the model (Model.ClientSub.terminals) for this program", o)
 
     progs = {json.dumps([o["case"]["l"], o["case"]["s"]["script"]]) for o in usable}
     ctx.coverage.update({
         "evaluations": len(obs),
         "distinct_nontrivial": len(progs),
-        "rule": "programs: Subscribe 1 sequentially, then 2..4 concurrent operations drawn from {Subscribe, ForgetSubscription, Cancel} x ids {1,2} with seeded start delays, publish scripts of 0..3 answers (first answer held until the calls are issued); plus 3 stress runs (48 subscriptions, 4 goroutines write-locking subMux, a PublishResponse with a Bad ServiceResult and SubscriptionID 0), the corpus witness of the fixed deadlock and 8 + 10 runs of the two lost-resume witnesses (the defect is fixed: they must end publishing); one child process per program; distinct = distinct (operation list, script)",
+        "rule": "programs: Subscribe 1 sequentially, then 2..4 concurrent operations drawn from {Subscribe, ForgetSubscription, Cancel} x ids {1,2}, one program in three with a consumer goroutine and data notifications on an unbuffered Notifs channel, with seeded start delays, publish scripts of 0..3 answers (first answer held until the calls are issued); plus 3 stress runs (48 subscriptions, 4 goroutines write-locking subMux, a PublishResponse with a Bad ServiceResult and SubscriptionID 0), the corpus witness of the fixed deadlock and 8 + 10 runs of the two lost-resume witnesses (the defect is fixed: they must end publishing); one child process per program; distinct = distinct (operation list, script)",
         "samples": [{k: o.get(k) for k in ("case", "done", "outstanding", "subs", "subs_blocked")} for o in usable[:3] + usable[-2:]],
         "terminal_classes": dict(collections.Counter("done=%s outstanding=%s subs=%d" % (all(o["done"]), o["outstanding"], len(o["subs"])) for o in usable)),
         "traces_validated_against_impl": len(usable),
@@ -139,6 +144,6 @@ def run(ctx):
     ctx.assumptions += [
         "schedules of the real client are not controlled (no scheduling hooks): the observed terminal state must be one of the model's terminal states over ALL schedules (computed inside Coq by breadth-first search)",
         "context cancellation (Close) and publish errors (which the secure channel also reports to the reconnect monitor) are outside the correspondence run; the model has them as PErr/PTimeout",
-        "notify() to the application channel is assumed not to block (the application reads its channel)",
+        "the application reads Notifs only in the modelled consumer operations (one API call, then one receive); Props/C27.v C27_notifies_outside_lock (translated) says that no notification is handed over with subMux held",
     ]
     ctx.conclude(proof_ok, corr_ok, new, detail)
